@@ -900,3 +900,131 @@ pub fn run(p: &Prog) -> Outcome {
 }
 
 pub fn _unused(_: BTreeSet<usize>) {}
+
+// ------------------------------------------------------------------ judged cases (Miri lane of C15 / C17)
+
+/// Small inputs for the eight threaded operations whose *results* are judged
+/// against the model while Miri schedules the real `std` threads (preemption
+/// at every memory access, weak-memory emulation of the `Relaxed` flag).
+pub mod judge {
+    use super::*;
+    use vmodel::gen::{near_semicomplete, random_dg, random_dg_on, random_vertex_set};
+    use vmodel::rng::Rng;
+
+    #[derive(Clone, Debug)]
+    pub struct Case {
+        pub kind: &'static str,
+        pub d: Dg,
+        pub e: Dg,
+        pub t: u8,
+        pub seed: u64,
+    }
+
+    pub const KINDS: [&str; 8] = [
+        "list_complement",
+        "list_complete",
+        "list_degree_sequence",
+        "list_is_semicomplete",
+        "list_union",
+        "map_union",
+        "map_random_tournament",
+        "map_erdos_renyi",
+    ];
+
+    /// A fixed corpus: case `i` is a pure function of `i`.
+    pub fn case(i: usize) -> Case {
+        let mut rng = Rng::new(0xC17_0000 + i as u64);
+        let kind = KINDS[i % KINDS.len()];
+        let t = 1 + ((i / KINDS.len()) % 4) as u8;
+        let n = 2 + (i / (KINDS.len() * 4)) % 7; // orders 2..=8
+        let p = [150, 400, 700, 950][(i / 7) % 4];
+        let d = if kind == "list_is_semicomplete" { near_semicomplete(&mut rng, n, true) } else { random_dg(&mut rng, n, p) };
+        let m = rng.range(1, n + 1);
+        let e = if kind == "map_union" {
+            let vs = random_vertex_set(&mut rng, m, 14);
+            random_dg_on(&mut rng, &vs, p)
+        } else {
+            random_dg(&mut rng, m, p)
+        };
+        Case { kind, d, e, t, seed: rng.next_u64() }
+    }
+
+    pub const CASES: usize = 8 * 4 * 7;
+
+    fn obs<G: Order + Size + Vertices + Arcs>(g: &G) -> Result<Dg, String> {
+        let v: Vec<usize> = g.vertices().collect();
+        let a: Vec<(usize, usize)> = g.arcs().collect();
+        if !v.windows(2).all(|w| w[0] < w[1]) || !a.windows(2).all(|w| w[0] < w[1]) {
+            return Err(format!("listing not strictly ascending: V={v:?} A={a:?}"));
+        }
+        if g.order() != v.len() || g.size() != a.len() {
+            return Err(format!("order()/size() disagree with the listings: {} {} vs {} {}", g.order(), g.size(), v.len(), a.len()));
+        }
+        let d = Dg::from_parts(v, a);
+        if !d.is_valid() {
+            return Err(format!("not a valid digraph: {d:?}"));
+        }
+        Ok(d)
+    }
+
+    fn same(got: Result<Dg, String>, want: &Dg) -> Result<(), String> {
+        let got = got?;
+        if &got == want {
+            Ok(())
+        } else {
+            Err(format!("got V={:?} A={:?}, the definition says V={:?} A={:?}", got.v, got.a, want.v, want.a))
+        }
+    }
+
+    /// Execute the case on real graaf types and judge the result.
+    pub fn run(c: &Case) -> Result<(), String> {
+        set_cpus(c.t);
+        let r = match c.kind {
+            "list_complement" => same(obs(&mk::L(&c.d).complement()), &c.d.complement()),
+            "list_complete" => same(obs(&AdjacencyList::complete(c.d.order())), &Dg::complete(c.d.order())),
+            "list_degree_sequence" => {
+                let s: Vec<usize> = mk::L(&c.d).degree_sequence().collect();
+                if s == c.d.degree_sequence() {
+                    Ok(())
+                } else {
+                    Err(format!("degree sequence {s:?}, the definition says {:?}", c.d.degree_sequence()))
+                }
+            }
+            "list_is_semicomplete" => {
+                let b = mk::L(&c.d).is_semicomplete();
+                if b == c.d.is_semicomplete() {
+                    Ok(())
+                } else {
+                    Err(format!("is_semicomplete() = {b}, the definition says {}", !b))
+                }
+            }
+            "list_union" => same(obs(&mk::L(&c.d).union(&mk::L(&c.e))), &c.d.union(&c.e)),
+            "map_union" => same(obs(&mk::M(&c.d).union(&mk::M(&c.e))), &c.d.union(&c.e)),
+            "map_random_tournament" => {
+                let n = c.d.order();
+                let (x, y) = (AdjacencyMap::random_tournament(n, c.seed), AdjacencyMap::random_tournament(n, c.seed));
+                match obs(&x) {
+                    Err(e) => Err(e),
+                    Ok(d) if !d.is_tournament() || d.v != (0..n).collect() => Err(format!("not a tournament on 0..{n}: {:?}", d.a)),
+                    Ok(_) if x != y => Err("two calls with equal arguments differ".into()),
+                    Ok(_) => Ok(()),
+                }
+            }
+            _ => {
+                let n = c.d.order();
+                let p = [0.0, 0.3, 0.5, 0.8, 1.0][(c.seed % 5) as usize];
+                let (x, y) = (AdjacencyMap::erdos_renyi(n, p, c.seed), AdjacencyMap::erdos_renyi(n, p, c.seed));
+                match obs(&x) {
+                    Err(e) => Err(e),
+                    Ok(d) if d.v != (0..n).collect() => Err(format!("vertex set {:?}", d.v)),
+                    Ok(d) if p == 0.0 && !d.a.is_empty() => Err("p = 0 but arcs".into()),
+                    Ok(d) if p == 1.0 && d != Dg::complete(n) => Err("p = 1 but not complete".into()),
+                    Ok(_) if x != y => Err("two calls with equal arguments differ".into()),
+                    Ok(_) => Ok(()),
+                }
+            }
+        };
+        set_cpus(0);
+        r
+    }
+}
